@@ -128,23 +128,28 @@ pub fn import<R: std::io::Read>(
                 commodity: commodity.clone().into_owned(),
             });
         }
-        if let Some(charge) = fm.extract(FieldKey::Charge, &r)? {
-            let payee = config.operator.as_ref().ok_or(ImportError::InvalidConfig(
-                "config should have operator to have charge",
-            ))?;
-            match str_to_comma_decimal(&charge)? {
-                Some(value) if !value.is_zero() => {
-                    txn.add_charge(
-                        payee,
-                        OwnedAmount {
-                            value,
-                            commodity: commodity.clone().into_owned(),
-                        },
-                    );
-                }
-                _ => (),
+        let charge = match fm.extract(FieldKey::Charge, &r)? {
+            Some(charge) => {
+                let payee = config.operator.as_ref().ok_or(ImportError::InvalidConfig(
+                    "config should have operator to have charge",
+                ))?;
+                str_to_comma_decimal(&charge)?
+                    .filter(|value| !value.is_zero())
+                    .map(|value| {
+                        (
+                            payee,
+                            OwnedAmount {
+                                value,
+                                commodity: commodity.clone().into_owned(),
+                            },
+                        )
+                    })
             }
-        }
+            None => None,
+        };
+        // The amount column is the net effect on the account, thus it contains the charge.
+        // Only the rest is exchanged with the counter account.
+        let principal = amount + charge.as_ref().map_or(Decimal::ZERO, |(_, c)| c.value);
         let default_conversion =
             if rate.is_some() && secondary_amount.is_some() && secondary_commodity.is_some() {
                 Some(default_conversion)
@@ -170,14 +175,14 @@ pub fn import<R: std::io::Read>(
                         source: secondary_commodity.to_owned(),
                         target: commodity.into_owned(),
                     },
-                    amount * rate,
+                    principal * rate,
                 ),
                 config::ConversionRateMode::PriceOfSecondary => (
                     CommodityPair {
                         source: commodity.into_owned(),
                         target: secondary_commodity.to_owned(),
                     },
-                    amount / rate,
+                    principal / rate,
                 ),
             };
             txn.add_rate(rate_key, rate)?;
@@ -191,6 +196,11 @@ pub fn import<R: std::io::Read>(
                 value: transferred,
                 commodity: secondary_commodity.to_owned(),
             });
+            if let Some((payee, charge)) = charge {
+                txn.add_charge(payee, charge);
+            }
+        } else if let Some((payee, charge)) = charge {
+            txn.try_add_charge_not_included(payee, charge)?;
         }
         res.push(txn);
     }
